@@ -76,8 +76,10 @@ Record kstate := mkK {
   k_ofd : list ofd;
   k_cur : proc;                (* the running process *)
   k_susp : list proc;          (* its waiting ancestors, parent first *)
-  k_skip : option (N * nat)    (* the running process was killed by this signal; the rest of
+  k_skip : option (N * nat);   (* the running process was killed by this signal; the rest of
                                   its operations (with this many nested forks open) is skipped *)
+  k_unpriv : bool              (* the processes are unprivileged: the permission bits of the
+                                  owner (they own every file) are enforced *)
 }.
 
 Inductive access := ARd | AWr | ARdWr.
@@ -116,6 +118,8 @@ Inductive op :=
 | OSetfd (fd : N) (cx : bool)
 | OAccess (fd : N)
 | OSetrlimit (n : N)          (* soft RLIMIT_NOFILE *)
+| ODropPriv                   (* from here on the processes are unprivileged *)
+| OChmod (p : str) (mode : N) (* (by the harness) set the permission bits *)
 | OSetpgid0                   (* setpgid(0, 0): the caller becomes the leader of a new group *)
 | OKill (t : ktarget) (sig : N)
 | OSigaction (sig : N) (d : disp)
@@ -212,19 +216,26 @@ Definition top (st : stack) : nat := match st with [] => O | (_, i) :: _ => i en
 
 Inductive wres := WOk (st : stack) | WErr (e : errno) | WOut.
 
+(* owner permission bits *)
+Definition may_r (perm : N) : bool := N.testbit perm 8.
+Definition may_w (perm : N) : bool := N.testbit perm 7.
+Definition may_x (perm : N) : bool := N.testbit perm 6.
+
 (* POSIX pathname resolution in a tree without symbolic links: every component
-   (also `.` and `..`) is looked up in a *directory*. *)
-Fixpoint walk (ino : list inode) (st : stack) (cs : list str) : wres :=
+   (also `.` and `..`) is looked up in a *directory*, which an unprivileged
+   process ([u] = true) must be allowed to search. *)
+Fixpoint walk (u : bool) (ino : list inode) (st : stack) (cs : list str) : wres :=
   match cs with
   | [] => WOk st
   | c :: cs' =>
       match nth_error ino (top st) with
-      | Some (IDir _ ents) =>
-          if is_dot c then walk ino st cs'
+      | Some (IDir perm ents) =>
+          if u && negb (may_x perm) then WErr EACCES
+          else if is_dot c then walk u ino st cs'
           else if is_dotdot c then
-            match st with [] => WOut | _ :: st' => walk ino st' cs' end
+            match st with [] => WOut | _ :: st' => walk u ino st' cs' end
           else match lookup ents c with
-               | Some i => walk ino ((c, i) :: st) cs'
+               | Some i => walk u ino ((c, i) :: st) cs'
                | None => WErr ENOENT
                end
       | Some _ => WErr ENOTDIR
@@ -240,9 +251,9 @@ Definition is_dir (ino : list inode) (i : nat) : bool :=
 Definition start (cwd : stack) (p : str) : stack := if is_abs p then [] else cwd.
 
 (* a whole path names an existing file *)
-Definition resolve (ino : list inode) (cwd : stack) (p : str) : wres :=
+Definition resolve (u : bool) (ino : list inode) (cwd : stack) (p : str) : wres :=
   if negb (nonempty p) then WOut
-  else match walk ino (start cwd p) (comps p) with
+  else match walk u ino (start cwd p) (comps p) with
        | WOk st => if trailing_slash p && negb (is_dir ino (top st)) then WErr ENOTDIR else WOk st
        | r => r
        end.
@@ -288,15 +299,15 @@ Definition live_end (s : kstate) (i : nat) (want : ofd -> bool) : bool :=
 Definition pipe_cap : N := 1024.    (* the smaller of the two pipe capacities *)
 
 Definition set_cur (s : kstate) (p : proc) : kstate :=
-  mkK (k_ino s) (k_ofd s) p (k_susp s) (k_skip s).
+  mkK (k_ino s) (k_ofd s) p (k_susp s) (k_skip s) (k_unpriv s).
 Definition set_fds (s : kstate) (t : fdtab) : kstate :=
   set_cur s (mkProc t (p_cwd (k_cur s)) (p_umask (k_cur s)) (p_sig (k_cur s)) (p_limit (k_cur s)) (p_id (k_cur s))).
 Definition set_sig (s : kstate) (g : sigstate) : kstate :=
   set_cur s (mkProc (p_fds (k_cur s)) (p_cwd (k_cur s)) (p_umask (k_cur s)) g (p_limit (k_cur s)) (p_id (k_cur s))).
 Definition set_ino (s : kstate) (l : list inode) : kstate :=
-  mkK l (k_ofd s) (k_cur s) (k_susp s) (k_skip s).
+  mkK l (k_ofd s) (k_cur s) (k_susp s) (k_skip s) (k_unpriv s).
 Definition set_ofd (s : kstate) (l : list ofd) : kstate :=
-  mkK (k_ino s) l (k_cur s) (k_susp s) (k_skip s).
+  mkK (k_ino s) l (k_cur s) (k_susp s) (k_skip s) (k_unpriv s).
 
 Definition fds (s : kstate) : fdtab := p_fds (k_cur s).
 
@@ -333,13 +344,16 @@ Definition flags_ok (a : access) (f : oflags) : bool :=
 Definition open_existing (s : kstate) (i : nat) (a : access) (f : oflags) : kstate * res :=
   if f_creat f && f_excl f then (s, RErr EEXIST) else
   match nth_error (k_ino s) i with
-  | Some (IDir _ _) =>
+  | Some (IDir dperm _) =>
       if writable a then (s, RErr EISDIR)
       else if f_creat f then (s, ROut)
+      else if k_unpriv s && negb (may_r dperm) then (s, RErr EACCES)
       else let '(s', fd) := install s (mkOfd i 0 true false (f_append f)) (f_cloexec f) in
            (s', RFd fd)
   | Some (IReg perm data) =>
       if f_dir f then (s, RErr ENOTDIR) else
+      if k_unpriv s && ((readable a && negb (may_r perm)) || (writable a && negb (may_w perm)))
+      then (s, RErr EACCES) else
       let s1 := if f_trunc f then set_ino s (set_nth (k_ino s) i (IReg perm [])) else s in
       let '(s', fd) := install s1 (mkOfd i 0 (readable a) (writable a) (f_append f)) (f_cloexec f) in
       (s', RFd fd)
@@ -358,7 +372,7 @@ Definition k_open_inner (s : kstate) (p : str) (a : access) (f : oflags) (mode :
   let cs := comps p in
   let whole :=
     (* the last component is not a name to create: resolve the whole path *)
-    match resolve (k_ino s) (p_cwd (k_cur s)) p with
+    match resolve (k_unpriv s) (k_ino s) (p_cwd (k_cur s)) p with
     | WOk st => open_existing s (top st) a f
     | WErr e => if f_creat f then (s, ROut) else (s, RErr e)
     | WOut => (s, ROut)
@@ -368,13 +382,15 @@ Definition k_open_inner (s : kstate) (p : str) (a : access) (f : oflags) (mode :
   | last :: rinit =>
       if is_dot last || is_dotdot last || trailing_slash p then whole
       else
-        match walk (k_ino s) (start (p_cwd (k_cur s)) p) (rev rinit) with
+        match walk (k_unpriv s) (k_ino s) (start (p_cwd (k_cur s)) p) (rev rinit) with
         | WOk st =>
             match nth_error (k_ino s) (top st) with
-            | Some (IDir _ ents) =>
+            | Some (IDir dperm ents) =>
+                if k_unpriv s && negb (may_x dperm) then (s, RErr EACCES) else
                 match lookup ents last with
                 | Some i => open_existing s i a f
                 | None =>
+                    if f_creat f && k_unpriv s && negb (may_w dperm) then (s, RErr EACCES) else
                     if f_creat f then
                       let i := length (k_ino s) in
                       let perm := mask mode (p_umask (k_cur s)) in
@@ -545,7 +561,7 @@ Definition k_fstat (s : kstate) (fd : N) : kstate * res :=
   end.
 
 Definition k_stat (s : kstate) (p : str) : kstate * res :=
-  match resolve (k_ino s) (p_cwd (k_cur s)) p with
+  match resolve (k_unpriv s) (k_ino s) (p_cwd (k_cur s)) p with
   | WOk st => match nth_error (k_ino s) (top st) with
               | Some n => (s, stat_of n)
               | None => (s, ROut)
@@ -561,9 +577,13 @@ Definition k_umask (s : kstate) (m : N) : kstate * res :=
   (set_cur s (mkProc (fds s) (p_cwd (k_cur s)) m (p_sig (k_cur s)) (p_limit (k_cur s)) (p_id (k_cur s))), RMode (p_umask (k_cur s))).
 
 Definition k_chdir (s : kstate) (p : str) : kstate * res :=
-  match resolve (k_ino s) (p_cwd (k_cur s)) p with
+  match resolve (k_unpriv s) (k_ino s) (p_cwd (k_cur s)) p with
   | WOk st => if is_dir (k_ino s) (top st)
-              then (set_cur s (mkProc (fds s) st (p_umask (k_cur s)) (p_sig (k_cur s)) (p_limit (k_cur s)) (p_id (k_cur s))), RUnit)
+              then if k_unpriv s && negb (match nth_error (k_ino s) (top st) with
+                                        | Some (IDir dperm _) => may_x dperm
+                                        | _ => true
+                                        end) then (s, RErr EACCES) else
+                   (set_cur s (mkProc (fds s) st (p_umask (k_cur s)) (p_sig (k_cur s)) (p_limit (k_cur s)) (p_id (k_cur s))), RUnit)
               else (s, RErr ENOTDIR)
   | WErr e => (s, RErr e)
   | WOut => (s, ROut)
@@ -603,12 +623,13 @@ Definition sort_by {A} (key : A -> str) (l : list A) : list A :=
   fold_right (insert_sorted key) [] l.
 
 Definition k_readdir (s : kstate) (p : str) : kstate * res :=
-  match resolve (k_ino s) (p_cwd (k_cur s)) p with
+  match resolve (k_unpriv s) (k_ino s) (p_cwd (k_cur s)) p with
   | WOk st => match nth_error (k_ino s) (top st) with
-              | Some (IDir _ ents) =>
+              | Some (IDir dperm ents) =>
                   (* the directory stream needs a descriptor while it is read *)
-                  if can_alloc s 0 then (s, RNames (sort_by (fun x => x) (map fst ents)))
-                  else (s, RErr EMFILE)
+                  if negb (can_alloc s 0) then (s, RErr EMFILE)
+                  else if k_unpriv s && negb (may_r dperm) then (s, RErr EACCES)
+                  else (s, RNames (sort_by (fun x => x) (map fst ents)))
               | Some _ => if can_alloc s 0 then (s, RErr ENOTDIR) else (s, ROut)
               | None => (s, ROut)
               end
@@ -620,6 +641,24 @@ Definition k_readdir (s : kstate) (p : str) : kstate * res :=
 Definition k_setrlimit (s : kstate) (n : N) : kstate * res :=
   if N.eqb n 0 || N.ltb default_limit n then (s, ROut) else
   (set_cur s (mkProc (fds s) (p_cwd (k_cur s)) (p_umask (k_cur s)) (p_sig (k_cur s)) n (p_id (k_cur s))), RUnit).
+
+(* ---- privileges, permission bits ------------------------------------------------------------------ *)
+
+Definition k_droppriv (s : kstate) : kstate * res :=
+  (mkK (k_ino s) (k_ofd s) (k_cur s) (k_susp s) (k_skip s) true, RUnit).
+
+Definition k_chmod (s : kstate) (p : str) (mode : N) : kstate * res :=
+  if N.ltb 511 mode then (s, ROut) else
+  match resolve (k_unpriv s) (k_ino s) (p_cwd (k_cur s)) p with
+  | WOk st =>
+      match nth_error (k_ino s) (top st) with
+      | Some (IReg _ data) => (set_ino s (set_nth (k_ino s) (top st) (IReg mode data)), RUnit)
+      | Some (IDir _ ents) => (set_ino s (set_nth (k_ino s) (top st) (IDir mode ents)), RUnit)
+      | _ => (s, ROut)
+      end
+  | WErr e => (s, RErr e)
+  | WOut => (s, ROut)
+  end.
 
 (* ---- signals ------------------------------------------------------------------------------------- *)
 
@@ -732,13 +771,13 @@ Definition k_fork (s : kstate) : kstate * res :=
   (mkK (k_ino s) (k_ofd s)
        (mkProc (p_fds p) (p_cwd p) (p_umask p) (mkSig (g_disp g) (g_mask g) [] []) (p_limit p)
                (N.of_nat (length (k_susp s)) + 2, snd (p_id p))%N)
-       (p :: k_susp s) None,
+       (p :: k_susp s) None (k_unpriv s),
    match g_caught g with [] => RUnit | _ => ROut end).
 
 Definition k_exit (s : kstate) : kstate * res :=
   match k_susp s with
   | [] => (s, ROut)
-  | parent :: rest => (mkK (k_ino s) (k_ofd s) parent rest None, RChild CExited)
+  | parent :: rest => (mkK (k_ino s) (k_ofd s) parent rest None (k_unpriv s), RChild CExited)
   end.
 
 (* ---- process groups, kill ---------------------------------------------------------------------------- *)
@@ -788,19 +827,19 @@ Fixpoint signal_ancestors (l : list proc) (pg : N) (sig : N) : option (list proc
 (* the signal for the running process itself *)
 Definition signal_self (s : kstate) (susp' : list proc) (sig : N) : kstate * res :=
   match generate (p_sig (k_cur s)) sig with
-  | DOk g => (mkK (k_ino s) (k_ofd s) (with_sig (k_cur s) g) susp' None, RUnit)
+  | DOk g => (mkK (k_ino s) (k_ofd s) (with_sig (k_cur s) g) susp' None (k_unpriv s), RUnit)
   | DFatal =>
       (* a child dies: nothing more of it is executed; the first process of a
          sequence must survive *)
       match k_susp s with
       | [] => (s, ROut)
-      | _ => (mkK (k_ino s) (k_ofd s) (k_cur s) susp' (Some (sig, O)), RSkip)
+      | _ => (mkK (k_ino s) (k_ofd s) (k_cur s) susp' (Some (sig, O)) (k_unpriv s), RSkip)
       end
   | DStop =>
       (* a stopped child is continued by its waiting parent: no effect *)
       match k_susp s with
       | [] => (s, ROut)
-      | _ => (mkK (k_ino s) (k_ofd s) (k_cur s) susp' None, RUnit)
+      | _ => (mkK (k_ino s) (k_ofd s) (k_cur s) susp' None (k_unpriv s), RUnit)
       end
   | DUnspec => (s, ROut)
   end.
@@ -815,7 +854,7 @@ Definition k_kill (s : kstate) (t : ktarget) (sig : N) : kstate * res :=
       | [] => (s, ROut)
       | p :: rest =>
           match generate (p_sig p) sig with
-          | DOk g => (mkK (k_ino s) (k_ofd s) me (with_sig p g :: rest) None, RUnit)
+          | DOk g => (mkK (k_ino s) (k_ofd s) me (with_sig p g :: rest) None (k_unpriv s), RUnit)
           | _ => (s, ROut)
           end
       end
@@ -857,6 +896,8 @@ Definition step_live (s : kstate) (o : op) : kstate * res :=
   | OSetfd fd cx => k_setfd s fd cx
   | OAccess fd => k_access s fd
   | OSetrlimit n => k_setrlimit s n
+  | ODropPriv => k_droppriv s
+  | OChmod p mode => k_chmod s p mode
   | OSetpgid0 => k_setpgid0 s
   | OKill t sig => k_kill s t sig
   | OSigaction sig d => k_sigaction s sig d
@@ -874,15 +915,15 @@ Definition step (s : kstate) (o : op) : kstate * res :=
   | None => step_live s o
   | Some (sig, d) =>
       match o with
-      | OFork => (mkK (k_ino s) (k_ofd s) (k_cur s) (k_susp s) (Some (sig, S d)), RSkip)
+      | OFork => (mkK (k_ino s) (k_ofd s) (k_cur s) (k_susp s) (Some (sig, S d)) (k_unpriv s), RSkip)
       | OExit =>
           match d with
           | O => match k_susp s with
                  | [] => (s, ROut)
                  | parent :: rest =>
-                     (mkK (k_ino s) (k_ofd s) parent rest None, RChild (CSignaled sig))
+                     (mkK (k_ino s) (k_ofd s) parent rest None (k_unpriv s), RChild (CSignaled sig))
                  end
-          | S d' => (mkK (k_ino s) (k_ofd s) (k_cur s) (k_susp s) (Some (sig, d')), RSkip)
+          | S d' => (mkK (k_ino s) (k_ofd s) (k_cur s) (k_susp s) (Some (sig, d')) (k_unpriv s), RSkip)
           end
       | _ => (s, RSkip)
       end
@@ -941,7 +982,7 @@ Definition init_state (tree : list init_entry) (um : N) : kstate :=
   let std i := mkOfd i 0 true true true in
   mkK ino [std 1%nat; std 2%nat; std 3%nat]
       (mkProc [(0%N, mkEnt 0 false); (1%N, mkEnt 1 false); (2%N, mkEnt 2 false)] [] um
-              (mkSig [] [] [] []) default_limit (1%N, 1%N)) [] None.
+              (mkSig [] [] [] []) default_limit (1%N, 1%N)) [] None false.
 
 (* final tree below the scratch root: (path, kind, permission bits, bytes),
    depth first, entries of a directory in byte order of their names *)
